@@ -29,10 +29,11 @@ fn do_instr(start: usize, hay: &str, needle: &str) -> Result<i32, RuntimeError> 
     } else if needle.is_empty() {
         Ok(1)
     } else {
+        let hay: Vec<char> = hay.chars().collect();
+        let needle: Vec<char> = needle.chars().collect();
         let mut i: usize = start - 1;
         while i + needle.len() <= hay.len() {
-            let sub = hay.get(i..(i + needle.len())).unwrap();
-            if sub == needle {
+            if hay[i..(i + needle.len())] == needle[..] {
                 return Ok((i as i32) + 1);
             }
             i += 1;
